@@ -262,7 +262,7 @@ theorem evalOp_refine (st : St) (hM : MapsOK K st.store) (op : Op) (hop : OpOK K
     rw [py_ctor_eq hA]
     intro e he
     obtain ⟨x, hx, rfl⟩ := List.mem_map.1 he
-    exact hkeys (ctorKey x.1) (List.mem_map.2 ⟨x, hx, rfl⟩)
+    exact hkeys x.1 (List.mem_map.2 ⟨x, hx, rfl⟩)
   | mPut m k v =>
     simp only [evalOp, pyDialect, specDialect]
     cases h : asMap st.store (st.var m) with
@@ -445,7 +445,7 @@ theorem evalOp_spec_MapsOK (st : St) (hM : MapsOK K st.store) (op : Op) (hop : O
   case mCtor es =>
     refine liftAlloc_map_ok hM (fun es' hes' => spec_construct_ok hA (fun e he => ?_) hes') h
     obtain ⟨x, hx, rfl⟩ := List.mem_map.1 he
-    exact hkeys (ctorKey x.1) (List.mem_map.2 ⟨x, hx, rfl⟩)
+    exact hkeys x.1 (List.mem_map.2 ⟨x, hx, rfl⟩)
   case mEntry k vv =>
     refine liftAlloc_map_ok hM (fun es' hes' => spec_construct_ok hA (fun e he => ?_) hes') h
     simp at he; subst he; exact hkeys k (by simp [opKeys])
